@@ -11,7 +11,7 @@ package lua
 // mtEvent(v, e): metatable(v)[e] by a raw access, nil when there is no (table) metatable      (manual: "metatable(op)[event]", rawget)
 //@ define mtEvent(ls *LState, v LValue, e string) LValue = ite(rawmt(ls, v) != LNil && isTab(rawmt(ls, v)), sget(tab(rawmt(ls, v)), e), LNil)
 // no table stores a Go nil (part of the table representation invariant, C09), stated for all tables
-//@ define tabsValid() bool = forall t *LTable, s string :: t != nil && has(t.strdict, s) ==> t.strdict[s] != nil
+//@ define tabsValid() bool = (forall t *LTable, s string :: t != nil && has(t.strdict, s) ==> valOK(t.strdict[s])) && (forall t *LTable, k LValue :: t != nil && has(t.dict, k) ==> valOK(t.dict[k])) && (forall t *LTable, i int :: t != nil && 0 <= i && i < len(t.array) ==> valOK(t.array[i]))
 //@ define MetaOK(ls *LState) bool = ls != nil && ls.G != nil && mtsValid(ls) && tabsValid()
 
 //@ func (*LState).metatable [C04]
@@ -45,8 +45,11 @@ package lua
 // comparison handlers: "__eq/__lt/__le" are used only when both operands have the SAME handler function; it is called
 // with (lhs, rhs) in that order and its truth value is the result.
 //@ func objectRational [C04]
+//@ logged
 //@ requires L != nil && Inv_api(L) && MetaOK(L) && valOK(lhs) && valOK(rhs)
-//@ ensures  "no-handler": old(!(isFn(mtEvent(L, lhs, event)) && mtEvent(L, lhs, event) == mtEvent(L, rhs, event))) ==> result == 0 - 1 && ncalls() == old(ncalls())
+//@ ensures  "no-handler": old(!(isFn(mtEvent(L, lhs, event)) && mtEvent(L, lhs, event) == mtEvent(L, rhs, event))) ==> result == 0 - 1
+//@ ensures  "handler-result": old(isFn(mtEvent(L, lhs, event)) && mtEvent(L, lhs, event) == mtEvent(L, rhs, event)) ==> result == 0 || result == 1
+//@ ensures  "no-handler-no-call": old(!(isFn(mtEvent(L, lhs, event)) && mtEvent(L, lhs, event) == mtEvent(L, rhs, event))) ==> ncalls() == old(ncalls())
 //@ ensures  "one-call": old(isFn(mtEvent(L, lhs, event)) && mtEvent(L, lhs, event) == mtEvent(L, rhs, event)) ==> ncalls() == old(ncalls()) + 1 && callfn(old(ncalls())) == fnid("(*LState).Call") && callargLV(old(ncalls()), 10) == old(mtEvent(L, lhs, event)) && callargLV(old(ncalls()), 11) == lhs && callargLV(old(ncalls()), 12) == rhs && callargInt(old(ncalls()), 1) == 2 && callargInt(old(ncalls()), 2) == 1
 //@ ensures  "truth-value": old(isFn(mtEvent(L, lhs, event)) && mtEvent(L, lhs, event) == mtEvent(L, rhs, event)) ==> result == ite(truthy(callresLV(old(ncalls()), 10)), 1, 0)
 //@ modifies everything
@@ -55,12 +58,15 @@ package lua
 // otherwise (and only when not raw) __eq decides; rawequal never calls a handler
 //@ func equals [C01 C04 C10]
 //@ requires L != nil && Inv_api(L) && MetaOK(L) && valOK(lhs) && valOK(rhs)
-//@ ensures  "types-differ": lvtype(lhs) != lvtype(rhs) ==> !result && ncalls() == old(ncalls())
-//@ ensures  "primitive": lvtype(lhs) == lvtype(rhs) && !isTab(lhs) && !isUd(lhs) ==> ncalls() == old(ncalls()) && (result <==> ite(isNum(lhs), num(lhs) == num(rhs), lhs == rhs))
-//@ ensures  "identical": (isTab(lhs) || isUd(lhs)) && lhs == rhs ==> result && ncalls() == old(ncalls())
-//@ ensures  "raw": raw ==> ncalls() == old(ncalls()) && ((isTab(lhs) || isUd(lhs)) && lhs != rhs ==> !result)
-//@ ensures  "no-common-handler": !raw && (isTab(lhs) || isUd(lhs)) && lvtype(lhs) == lvtype(rhs) && lhs != rhs && old(!(isFn(mtEvent(L, lhs, "__eq")) && mtEvent(L, lhs, "__eq") == mtEvent(L, rhs, "__eq"))) ==> !result && ncalls() == old(ncalls())
-//@ ensures  "handler": !raw && (isTab(lhs) || isUd(lhs)) && lvtype(lhs) == lvtype(rhs) && lhs != rhs && old(isFn(mtEvent(L, lhs, "__eq")) && mtEvent(L, lhs, "__eq") == mtEvent(L, rhs, "__eq")) ==> ncalls() == old(ncalls()) + 1 && callargLV(old(ncalls()), 11) == lhs && callargLV(old(ncalls()), 12) == rhs && (result <==> truthy(callresLV(old(ncalls()), 10)))
+//@ ensures  "types-differ": lvtype(lhs) != lvtype(rhs) ==> !result
+//@ ensures  "primitive": lvtype(lhs) == lvtype(rhs) && !isTab(lhs) && !isUd(lhs) ==> (result <==> ite(isNum(lhs), num(lhs) == num(rhs), lhs == rhs))
+//@ ensures  "identical": (isTab(lhs) || isUd(lhs)) && lhs == rhs ==> result
+//@ ensures  "raw": raw ==> ((isTab(lhs) || isUd(lhs)) && lhs != rhs ==> !result)
+//@ ensures  "no-common-handler": !raw && (isTab(lhs) || isUd(lhs)) && lvtype(lhs) == lvtype(rhs) && lhs != rhs && old(!(isFn(mtEvent(L, lhs, "__eq")) && mtEvent(L, lhs, "__eq") == mtEvent(L, rhs, "__eq"))) ==> !result
+// the handler is consulted through objectRational("__eq") with the operands in source order, exactly once, and only for two
+// different tables / two different userdata when the comparison is not raw; the result is objectRational's verdict
+//@ ensures  "via-objectRational": !raw && (isTab(lhs) || isUd(lhs)) && lvtype(lhs) == lvtype(rhs) && lhs != rhs ==> ncalls() == old(ncalls()) + 1 && callfn(old(ncalls())) == fnid("objectRational") && callargLV(old(ncalls()), 1) == lhs && callargLV(old(ncalls()), 2) == rhs && callargStr(old(ncalls()), 3) == "__eq" && (result <==> callresInt(old(ncalls()), 0) == 1)
+//@ ensures  "otherwise-no-call": !(!raw && (isTab(lhs) || isUd(lhs)) && lvtype(lhs) == lvtype(rhs) && lhs != rhs) ==> ncalls() == old(ncalls())
 //@ modifies everything
 
 //@ func strCmp [C01 C04]
@@ -68,3 +74,39 @@ package lua
 //@ ensures  0 - 1 <= result && result <= 1
 //@ modifies nothing
 //@ loop 1 invariant 0 <= i && i <= len2 && i <= len1 && len1 == len(s1) && len2 == len(s2)
+
+// ---------------------------------------------------------------------------
+// Indexing (manual §2.8 "index"/"newindex"). One activation of getField makes at most one handler call; the ghost call
+// log records it with (handler, current object, key). The chain through table-valued handlers is followed up to
+// MaxTableGetLoop steps (loop invariant: nothing has been called or changed yet, the current object is valid).
+// ---------------------------------------------------------------------------
+
+//@ define TabsOK(ls *LState) bool = MetaOK(ls) && MaxArrayIndex <= 4611686018427387904 && (forall t *LTable :: t != nil ==> offset(t.array) == 0)
+//@ define IdxOK(ls *LState) bool = ls != nil && Inv_api(ls) && TabsOK(ls) && (ls.currentFrame != nil ==> ls.currentFrame.Fn != nil)
+
+//@ func (*LState).getField [C01 C04 C07 C10]
+//@ logged
+//@ requires IdxOK(ls) && valOK(obj) && valOK(key)
+//@ raises when true
+//@ ensures  "discipline": Disc(ls) && result != nil
+//@ ensures  "raw-hit": old(isTab(obj) && view(tab(obj), key) != LNil) ==> result == old(view(tab(obj), key)) && ncalls() == old(ncalls())
+//@ ensures  "absent-no-handler": old(isTab(obj) && view(tab(obj), key) == LNil && mtEvent(ls, obj, "__index") == LNil) ==> result == LNil && ncalls() == old(ncalls())
+//@ ensures  "function-handler": old((!isTab(obj) || view(tab(obj), key) == LNil) && isFn(mtEvent(ls, obj, "__index"))) ==> ncalls() == old(ncalls()) + 1 && callfn(old(ncalls())) == fnid("(*LState).Call") && callargLV(old(ncalls()), 10) == old(mtEvent(ls, obj, "__index")) && callargLV(old(ncalls()), 11) == obj && callargLV(old(ncalls()), 12) == key && result == callresLV(old(ncalls()), 10)
+//@ ensures  "at-most-one-call": ncalls() <= old(ncalls()) + 1 && (ncalls() == old(ncalls()) + 1 ==> callfn(old(ncalls())) == fnid("(*LState).Call") && isFn(callargLV(old(ncalls()), 10)) && callargLV(old(ncalls()), 12) == key && callargInt(old(ncalls()), 1) == 2 && callargInt(old(ncalls()), 2) == 1 && result == callresLV(old(ncalls()), 10))
+//@ modifies everything
+//@ loop 1 invariant 0 <= i && valOK(curobj) && (i == 0 ==> curobj == obj) && ncalls() == old(ncalls())
+//@ loop 1 invariant i > 0 ==> old((!isTab(obj) || view(tab(obj), key) == LNil) && mtEvent(ls, obj, "__index") != LNil && !isFn(mtEvent(ls, obj, "__index")))
+
+//@ trusted (*LState).getFieldString [C01 C04 C07 C10]
+//@ assume getFieldString/setField/setFieldString: same structure as getField (verified above); assumed here until verified
+//@ logged
+//@ ensures  Disc(ls) && result != nil
+//@ modifies everything
+//@ trusted (*LState).setField [C01 C04 C07 C10]
+//@ logged
+//@ ensures  Disc(ls)
+//@ modifies everything
+//@ trusted (*LState).setFieldString [C01 C04 C07 C10]
+//@ logged
+//@ ensures  Disc(ls)
+//@ modifies everything
